@@ -44,6 +44,10 @@ pub struct Core {
     pub max_len: usize,
     /// Endpoints whose traffic is black-holed (crashed nodes).
     pub dead: std::collections::HashSet<usize>,
+    /// Upper bound on datagrams per run (a zero-latency network turns any amplification loop into an
+    /// unbounded storm in zero virtual time); beyond it everything is dropped and `capped` is set.
+    pub max_datagrams: Option<u64>,
+    pub capped: bool,
 }
 
 #[derive(Clone)]
@@ -62,6 +66,8 @@ impl NetHandle {
             dropped: 0,
             max_len: 0,
             dead: Default::default(),
+            max_datagrams: None,
+            capped: false,
         })))
     }
 
@@ -110,6 +116,11 @@ impl NetHandle {
         {
             let mut c = self.0.lock().unwrap();
             c.sent += 1;
+            if c.max_datagrams.is_some_and(|m| c.sent > m) {
+                c.capped = true;
+                c.dropped += 1;
+                return;
+            }
             c.max_len = c.max_len.max(d.bytes.len());
             if let Some(h) = c.on_send.as_mut() {
                 h(&d);
